@@ -130,6 +130,18 @@ check("C04",
       "against ConjBag, with cross-layer agreement.",
       "Trusts TLC and the installed particle data (ids, self-conjugate flags, name maps) as the reference.",
       "DESIGN.md section 5, C04")
+check("C06",
+      "TLA+ model of the MODEL_NAME terminal (spec/ModelMatch.tla: ordered alternation with word boundary vs declarative longest "
+      "match) checked by TLC; exhaustive concrete cases over all 135 published names judged by TLC on the real strings",
+      "TLC checks, over all words of <= 5 characters on an abstract alphabet and a name list with prefix, underscore and hyphen "
+      "relations, that the longest-first ordered alternation equals the declarative longest match, that every listed name is "
+      "itself, that word-character extensions are labels, and refutes the unsorted alternation. Concretely every published "
+      "name x PHOTOS x parameter forms x neighbours that extend model names, all prefix-related pairs side by side, registered "
+      "name families overlapping published names (one or two registration calls), near-miss unknown words and defined aliases "
+      "are parsed by the real code; TLC classifies the real word against the real name list and judges acceptance, verbatim "
+      "reporting, untouched neighbours and rejection.",
+      "Trusts TLC (string operators) and harness/c06.py; registered names end in a word character.",
+      "DESIGN.md section 5, C06")
 check("C07",
       "TLA+ specification of the eleven global queries (spec/DecGlobals.tla: left fold = declarative last-wins reading, checked "
       "by TLC); files parsed by the real code and all queries validated by TLC",
